@@ -3,6 +3,7 @@ package main
 
 import (
 	"flag"
+	"runtime/pprof"
 	"fmt"
 	"os"
 	"strconv"
@@ -44,9 +45,16 @@ func main() {
 		c.Extra("replay_of", *replay)
 		c.Replay = *replay
 	}
+	if pf := os.Getenv("VERIF_CPUPROFILE"); pf != "" {
+		f, _ := os.Create(pf)
+		pprof.StartCPUProfile(f)
+		defer pprof.StopCPUProfile()
+	}
 	ck.Run(c)
 	if ck.Race {
 		c.CollectRaces()
 	}
-	os.Exit(c.Finish())
+	code := c.Finish()
+	pprof.StopCPUProfile()
+	os.Exit(code)
 }
